@@ -24,8 +24,17 @@ def plan(tier):
     return [("debug", 16, dict(ncfg=2500, nexl=2500, edits=14)), ("release", 4, dict(ncfg=600, nexl=600, edits=10))]
 
 
+# text that looks like an escaped form of a structural character (entity, percent, backslash and caret notations): it is ordinary text
+LOOKALIKES = ["&lt;", "&gt;", "&amp;", "&#60;", "&#x3E;", "&quot;", "&apos;", "&nbsp;", "%3C", "%3E", "%09", "%0D%0A", "\\t", "\\n", "\\r", "\\0", "\\x3c", "\\u003e", "^I", "^M", "&lt", "lt;"]
+
+
 def word(rng, a, b, alpha=ALPHA):
-    return "".join(rng.choice(alpha) for _ in range(rng.randint(a, b)))
+    w = "".join(rng.choice(alpha) for _ in range(rng.randint(a, b)))
+    if b >= 4 and b < 100 and rng.random() < 0.06:
+        t = rng.choice(LOOKALIKES)
+        i = rng.randint(0, len(w))
+        w = (w[:i] + t + w[i:]) if rng.random() < 0.7 else t
+    return w
 
 
 def canon_cfg(cats):
@@ -68,6 +77,8 @@ def shard(ctx):
     br = ctx.call("cfg.parse", bf, input_bytes=len(by_canon))
     bh = br.value["handle"] if br.ok else None
     for i in range(P["ncfg"]):
+        if rng.random() < 0.08:
+            failing_parse_first(ctx, rng)
         cfg_case(ctx, rng, P["edits"])
         if bh is not None and i % 10 == 9:
             bout = ctx.path("bystander.out")
@@ -78,7 +89,28 @@ def shard(ctx):
     if bh is not None:
         ctx.call("drop", bh)
     for i in range(P["nexl"]):
+        if rng.random() < 0.08:
+            failing_parse_first(ctx, rng)
         exl_case(ctx, rng)
+
+
+def failing_parse_first(ctx, rng):
+    """a parse of something that is no list / configuration at all (bytes that are not UTF-8, a cut-off row, binary data), in the same
+    process right before the case under test: nothing of it may carry over (a row buffer, a category in progress)"""
+    k = rng.random()
+    if k < 0.4:
+        data = rng.randbytes(rng.choice([1, 30, 300, 5000]))
+    elif k < 0.7:
+        data = b"EXLT,2\nItem,1\nQuest\xff\xfe,2\nLevel,3\n" + rng.randbytes(8)
+    else:
+        data = "\r\n<Cat>\r\nKey\tVal\r\n<Open".encode() + bytes([0xC3]) + rng.randbytes(3)
+    f = ctx.write("garbage.bin", data)
+    for verb in rng.sample(["exl.parse", "cfg.parse"], rng.choice([1, 2])):
+        r = ctx.call(verb, f, input_bytes=len(data))
+        if r.ok and isinstance(r.value, dict) and r.value.get("handle") is not None:
+            ctx.call("drop", r.value["handle"])
+        ctx.stats.monitor["failing_parse_first:%s:%s" % (verb, r.outcome.split(":")[0])] += 1
+    ctx.stats.classes["history:after-a-failed-parse"] += 1
 
 
 def eq(ctx, sub, got, exp, files, cls=None):
